@@ -561,11 +561,12 @@ func (s *socket) Close(discard bool) {
 		return
 	}
 
-	if s.ReadyState() != "open" {
+	// only an open session starts closing; test and update in one step, or a
+	// session closed in between would be put back to "closing" after its close event
+	if !s.readyState.CompareAndSwap("open", "closing") {
 		return
 	}
-
-	s.SetReadyState("closing")
+	socket_log.Debug("readyState updated from open to closing")
 
 	if length := s.writeBuffer.Len(); length > 0 {
 		socket_log.Debug("there are %d remaining packets in the buffer, waiting for the 'drain' event", length)
